@@ -51,6 +51,7 @@ aa19a68:C16
 0072067:C01,C02
 aaea8f1:C01
 fc8744a:C17
+4480891:C04,C01
 d61bc2a:C19
 "
 [ -n "$REVERT_ONLY" ] && PAIRS="$REVERT_ONLY"
